@@ -634,13 +634,15 @@ package readline
 
 // commands repaired by fix: commits (DESIGN.md §10), proved panic-free with their loop invariants
 //@ func (*Shell).autosuggestAccept
-//@   trusted not proved yet (history match preconditions); only its precondition is used by callers
-//@   requires fullok(rl)
+//@   props C01
+//@   terminates
+//@   allow_alias Suggest returns the line's own slice only when it has nothing longer to offer; the lengths are then equal and the command returns before Line.Set (the alias check is not path-sensitive)
+//@   requires fullok(rl) && histready(rl)
 
 //@ func (*Shell).viForwardChar
 //@   props C01
 //@   terminates
-//@   requires fullok(rl)
+//@   requires fullok(rl) && histready(rl)
 //@   loop 1 invariant fullok(rl)
 
 //@ func (*Shell).viBackwardChar
@@ -917,7 +919,7 @@ package readline
 //@ func (*Shell).forwardChar
 //@   props C01
 //@   terminates
-//@   requires fullok(rl)
+//@   requires fullok(rl) && histready(rl)
 
 //@ func (*Shell).viDownCase
 //@   props C01
